@@ -155,10 +155,13 @@ fn c10_soak(cx: &mut Cx, lang: &'static str) {
     let total: usize = 70_000;
     let mut compared = 0u64;
     for k in 0..total {
-        let q = &queries[(k * 5 + k / 31) % queries.len()];
+        // the last two words' queries are used by the first few searches only and come back after 2^16
+        // searches and at the end; the rest cycles
+        let lead = k < 6 || (65_536..65_560).contains(&k) || k + 12 >= total;
+        let q = if lead { &queries[queries.len() - 1 - (k % 5)] } else { &queries[(k * 5 + k / 31) % (queries.len() - 5)] };
         let got = st.search(q);
         let n = k + 1;
-        let near_power = (8..=17).any(|b| { let p = 1usize << b; n + 6 >= p && n <= p + 6 });
+        let near_power = lead || (8..=17).any(|b| { let p = 1usize << b; n + 6 >= p && n <= p + 12 });
         if near_power || n % 97 == 0 || n == total {
             cx.ctx(format!("C10 soak lang={} records={:?} limit={} search #{} q={:?}", lang, recs, limit, n, q));
             let exp = fresh.search(q);
